@@ -193,6 +193,9 @@ func c17Doc(doc []byte) (applicable bool, err error) {
 // CheckC17: Kind "string": In is the byte string. Kind "doc": In is a JSON document; its
 // decoded tree is the helpers' argument (trees are always reproducible as documents here).
 func CheckC17(c *core.Case) error {
+	if c.Kind == "cold" {
+		return checkCold(c)
+	}
 	if c.Kind == "built-tree" {
 		if len(c.Ints) < 1 || c.Ints[0] < 1 || c.Ints[0] > 1<<22 {
 			return fmt.Errorf("bad case")
